@@ -681,6 +681,10 @@ def run_cross(job):
         try:
             fr, pins = _cross_frame(s, h, w, job.get("frameform", "vars"), bits_of(p, m))
             before = [id(e) for e in fr] + [id(e) for e in fr.all_edges()]
+            if p % 5 == 2:
+                # a history on one solver and one frame: the trail constraint was already posted (path or cycle), then the
+                # job's own call follows - the conjunction admits exactly what the (equal or stronger) second call admits
+                cg.active_edges_connected_crossable(s, fr, single_cycle=False, use_graph_primitive=job.get("prim", False))
             passed, cross = _cross_call(s, fr, job, job.get("prim", False))
             if [id(e) for e in fr] + [id(e) for e in fr.all_edges()] != before:
                 # the segments the caller goes on to constrain are no longer the ones it drew
